@@ -96,6 +96,11 @@ def recon_ok(ctx, V, what, rec, x, tol):
     if not np.allclose(got, exp, atol=tol, rtol=0):
         V(f"{what}-reconstruction", f"product of the factors differs from the input, max|diff| {cmp.maxdiff(got, exp)}")
         return False
+    from symv.dense import labels_of
+
+    if labels_of(rec) != labels_of(x):
+        V(f"{what}-reconstruction-labels", f"product of the factors carries the odd-position labels {labels_of(rec)}, the input {labels_of(x)} (it is not interchangeable with the input in further contractions)")
+        return False
     return True
 
 
